@@ -359,3 +359,15 @@ MUTANTS = [
 ]
 
 EQUIVS = []
+
+# functions whose syntactic mutants are used for the thorough tier's sensitivity figure (sa/automut.py)
+ANCHORS = [
+    "nostr_relay.storage.db:DBStorage.add_event",
+    "nostr_relay.storage.db:DBStorage.pre_save",
+    "nostr_relay.storage.db:DBStorage.post_save",
+    "nostr_relay.storage.db:DBStorage.process_tags",
+    "nostr_relay.storage.kv:WriterThread.run",
+    "nostr_relay.storage.kv:WriterThread._post_save",
+    "nostr_relay.storage.kv:WriterThread._delete_event",
+    "nostr_relay.storage.kv:Index.write",
+]
